@@ -56,6 +56,7 @@ def run(ctx):
     s2h(ctx)
     s7(ctx, taint, off)
     s9(ctx)
+    s8(ctx)
 
 
 # ---------------------------------------------------------------------------------- taint
@@ -678,8 +679,9 @@ EXPLANATION = ("Static taint-to-sink analysis with sanitizer facts over everythi
                "must-facts (sizes, loop ranges, octet ranges, declared array lengths, allocation sizes); every assertion whose condition "
                "depends on untrusted data is dominated by an explicit guard, locally or at every call site passing untrusted data; wire "
                "values used as moduli carry a non-zero fact; no null constant reaches a GMP primitive; allocations, stack arrays and resizes "
-               "sized by decoded integers carry an upper bound; variadic hashes never read past their arguments; arithmetic on decoded integers in int / unsigned int stays within 32 bits and unsigned differences are non-negative (no wrap-around feeding a guard, offset or size). A closed list of sink "
-               "kinds on the anchored code -- not absence of all memory errors, not termination.")
+               "sized by decoded integers carry an upper bound; variadic hashes never read past their arguments; arithmetic on decoded integers in int / unsigned int stays within 32 bits and unsigned differences are non-negative (no wrap-around feeding a guard, offset or size). the search loops of the group checks (re-derivation of a verifiable generator: repeat until an element of order q is found) are entered only "
+               "with p prime and p = qk + 1 established, which is what makes them terminate on stream-supplied parameters. A closed list of sink "
+               "kinds on the anchored code -- not absence of all memory errors, not termination of every loop.")
 ASSUMPTIONS = ["the linear prover reasons over the integers; S7 shows separately that int/unsigned-int arithmetic and unsigned differences on untrusted data do not wrap (64-bit size_t sums of decoded 32-bit lengths cannot wrap)", "std::map::operator[] and iterators are not sinks",
                "exceptions listed in S2_EXCEPTIONS were triaged by reading", "the second layer (*Parse* functions working on decoded packet contexts) is reported, not claimed"]
 
@@ -836,3 +838,43 @@ def s9(ctx):
                             'freed buffer and the context release frees it again' % (leak.line, fld, fld), f, line=node.line)
     ctx.info['S9_sites'] = n
     ctx.floor('S9', n, 2)
+
+
+# ---------------------------------------------------------------------------------- S8
+def s8(ctx):
+    """termination of the search loops in the group checks: CheckGroup runs on members a stream constructor filled from the
+    wire.  A loop without a counting bound in it (the re-derivation of the verifiable generator: hash, raise to the k-th
+    power, repeat until an element of order q other than 1 turns up; the hash input grows on every round) terminates
+    because x^k has order dividing q when p is prime and p = qk + 1 -- for a composite p of that form it need not ever.
+    So the head of every such loop must hold the facts isprime(p) and p = qk + 1 (or 2q + 1) on every path."""
+    prog = ctx.prog
+    n = 0
+    for k, f in sorted(prog.funcs.items()):
+        if not f['q'].endswith('::CheckGroup') or not f.get('body'):
+            continue
+        a = ctx.analysis(f)
+        T = a.T
+        for h in sorted(a.loop_nodes.keys()):
+            if a.loop_bound.get(h):
+                continue            # a counting loop
+            st = a.instate.get(h)
+            if st is None:
+                continue
+            prime_p = form = False
+            for fa in st.facts:
+                fn = T.node(fa)
+                if fn[0] == 'truthy' and T.op(fn[1]) == 'isprime' and T.node(T.node(fn[1])[1]) == ('this', 'p'):
+                    prime_p = True
+                if fn[0] == 'rel' and fn[1] == '==':
+                    sh = T.show(fa, 5)
+                    if 'this.p' in sh and 'this.q' in sh and ('mul(' in sh or 'div' in sh):
+                        form = True
+            n += 1
+            key = 'S8:%s:search-loop' % f['q']
+            if prime_p and form:
+                ctx.ok('S8', key, 'the search loop is entered only with p prime and p = qk + 1 established', f)
+            else:
+                ctx.bad('S8', key, 'a search loop without a counting bound is reachable %s: on a stream-supplied composite modulus the loop need '
+                        'not terminate and its hash input grows without bound' % (
+                            'before the primality of p was tested' if not prime_p else 'before the form p = qk + 1 was tested'), f)
+    ctx.floor('S8', n, 8)
